@@ -21,26 +21,28 @@ Definition code_ok (code : list rop) : Prop := Forall code_op_ok code /\ zlen co
 
 (* ---- debugging operations --------------------------------------------------------------- *)
 Lemma exec_PRINT_REG_wf s r : wf_vm s -> reg_ix r ->
-  exists s', exec_PRINT_REG [PI r] s = Ok (tt, s') /\ wf_vm s'.
+  exists s', exec_PRINT_REG [PI r] s = Ok (tt, s') /\ wf_vm s' /\ op_count s' = op_count s.
 Proof.
   intros W Hr. pose proof (wf_r _ W) as [Hl _]. unfold exec_PRINT_REG.
   astep. mstep ltac:(apply vm_load_register_ok; assumption). astep.
   mstep reflexivity. mstep reflexivity. mstep reflexivity.
-  eexists. split; [reflexivity|]. apply wf_upd_pc, wf_upd_out, W.
+  eexists. split; [reflexivity|]. split; [apply wf_upd_pc, wf_upd_out, W|reflexivity].
 Qed.
-Lemma exec_PRINT_wf s str : wf_vm s -> exists s', exec_PRINT [PS str] s = Ok (tt, s') /\ wf_vm s'.
+Lemma exec_PRINT_wf s str : wf_vm s ->
+  exists s', exec_PRINT [PS str] s = Ok (tt, s') /\ wf_vm s' /\ op_count s' = op_count s.
 Proof.
   intros W. unfold exec_PRINT. astep. mstep reflexivity. mstep reflexivity. mstep reflexivity.
-  eexists. split; [reflexivity|]. apply wf_upd_pc, wf_upd_out, W.
+  eexists. split; [reflexivity|]. split; [apply wf_upd_pc, wf_upd_out, W|reflexivity].
 Qed.
-Lemma exec_PRINTLN_wf s str : wf_vm s -> exists s', exec_PRINTLN [PS str] s = Ok (tt, s') /\ wf_vm s'.
+Lemma exec_PRINTLN_wf s str : wf_vm s ->
+  exists s', exec_PRINTLN [PS str] s = Ok (tt, s') /\ wf_vm s' /\ op_count s' = op_count s.
 Proof.
   intros W. unfold exec_PRINTLN. astep. mstep reflexivity. mstep reflexivity. mstep reflexivity.
-  eexists. split; [reflexivity|]. apply wf_upd_pc, wf_upd_out, W.
+  eexists. split; [reflexivity|]. split; [apply wf_upd_pc, wf_upd_out, W|reflexivity].
 Qed.
 
 Lemma code_op_wf o s : code_op_ok o -> wf_vm s -> pc_ok s ->
-  exists s', exec (r_op o) (r_args o) s = Ok (tt, s') /\ wf_vm s'.
+  exists s', exec (r_op o) (r_args o) s = Ok (tt, s') /\ wf_vm s' /\ op_count s' = op_count s.
 Proof.
   intros [(zs & i & Ea & Hi & Hv & Hr) | [(Eo & r & Ea & Hr) | (Eo & str & Ea)]] W Hp.
   - rewrite Ea. eapply exec_wf; eassumption.
@@ -59,7 +61,7 @@ Proof.
 Qed.
 
 Lemma fetch_exec_wf code s : code_ok code -> wf_vm s -> 0 <= pc s < zlen code ->
-  exists s', fetch_exec code s = Ok (tt, s') /\ wf_vm s'.
+  exists s', fetch_exec code s = Ok (tt, s') /\ wf_vm s' /\ op_count s' = op_count s.
 Proof.
   intros [Hall Hlen] W Hp. unfold fetch_exec.
   destruct (nth_in_code code (pc s) Hp) as [Eg Hin].
@@ -67,7 +69,9 @@ Proof.
   mstep ltac:(unfold lift; rewrite Eg; reflexivity).
   mstep reflexivity.
   rewrite Forall_forall in Hall.
-  apply code_op_wf; [apply Hall, Hin | apply wf_upd_location, W | unfold pc_ok; cbn; lia].
+  destruct (code_op_wf (nth (Z.to_nat (pc s)) code dummy_rop) (upd_location (r_loc (nth (Z.to_nat (pc s)) code dummy_rop)) s))
+    as (s' & E & W' & O'); [apply Hall, Hin | apply wf_upd_location, W | unfold pc_ok; cbn; lia|].
+  exists s'. split; [exact E|]. split; [exact W'|exact O'].
 Qed.
 
 Definition guard_true (code : list rop) (s : vm) : bool :=
@@ -97,7 +101,7 @@ Proof.
   destruct (guard_true code s) eqn:G; [right|left; split; reflexivity].
   assert (Hp : 0 <= pc s < zlen code) by (unfold guard_true in G; lia).
   split; [reflexivity|]. split; [exact Hp|].
-  destruct (fetch_exec_wf code s C W Hp) as (s' & E & W').
+  destruct (fetch_exec_wf code s C W Hp) as (s' & E & W' & _).
   rewrite E. eexists. split; [reflexivity|exact W'].
 Qed.
 
@@ -139,16 +143,18 @@ Qed.
 
 Lemma loop_step_throttled_ok code n s : code_ok code -> wf_vm s ->
   (loop_step_throttled n code s = Ok None) \/
-  (0 <= pc s < zlen code /\ exists s', loop_step_throttled n code s = Ok (Some s') /\ wf_vm s').
+  (0 <= pc s < zlen code /\ op_count s < n /\
+   exists s', loop_step_throttled n code s = Ok (Some s') /\ wf_vm s' /\ op_count s' = op_count s + 1).
 Proof.
   intros C W. destruct (run_guard_throttled_ok code n s W) as (g & Eg & Tg).
   unfold loop_step_throttled. rewrite Eg, Tg.
   destruct (guard_true code s && (op_count s <? n)) eqn:G; [right|left; reflexivity].
   assert (Hp : 0 <= pc s < zlen code) by (unfold guard_true in G; lia).
-  split; [exact Hp|].
-  destruct (fetch_exec_wf code s C W Hp) as (s' & E & W').
+  split; [exact Hp|]. split; [lia|].
+  destruct (fetch_exec_wf code s C W Hp) as (s' & E & W' & O').
   mstep ltac:(exact E). mstep reflexivity.
-  eexists. split; [reflexivity|]. apply wf_upd_op_count, W'.
+  eexists. split; [reflexivity|]. split; [apply wf_upd_op_count, W'|].
+  pynorm. cbn [op_count upd_op_count]. lia.
 Qed.
 
 Theorem iter_throttled_wf code n : code_ok code -> forall fuel s, wf_vm s ->
@@ -161,7 +167,7 @@ Theorem iter_throttled_wf code n : code_ok code -> forall fuel s, wf_vm s ->
 Proof.
   intros C. induction fuel as [|f IH]; intros s W; cbn [visited iter].
   - split; [constructor; [exact W|constructor]|exact I].
-  - destruct (loop_step_throttled_ok code n s C W) as [E | (_ & s' & E & W')]; rewrite E.
+  - destruct (loop_step_throttled_ok code n s C W) as [E | (_ & _ & s' & E & W' & _)]; rewrite E.
     + split; [constructor; [exact W|constructor]|exact W].
     + destruct (IH s' W') as [H1 H2]. split; [constructor; assumption|exact H2].
 Qed.
